@@ -175,21 +175,33 @@ def problem_call(**inp):
     pb._obj = lambda x: fnew
     pb._nonlinear = lambda x: (np.array([]), np.array([]))
     pb.maxcv = lambda x, a=None, b=None: mnew
+    ob = inp.get("vcx_obligation", "")
+    if "n_eval" in ob:
+        from cobyqa.problem import ObjectiveFunction
+        fun_none = bool(inp.get("fun_is_none"))
+        pb._obj = ObjectiveFunction(None if fun_none else (lambda x: fnew), False, False)
+        pb._n_eval = 0
+        before = pb.n_eval
+        pb(np.array([float(len(H))]), 0.0)
+        after = pb.n_eval
+        return {"reproduced": after != before + 1, "observed": {"fun_is_none": fun_none, "n_eval_before": before, "n_eval_after": after},
+                "required": "Problem.n_eval increases by exactly one per evaluated point"}
+    pb._n_eval = 0
     pb(np.array([float(len(H))]), 0.0)
     H1 = H + [(fnew, mnew)]
     problems = []
     Fn, Mn = pb._fun_filter, pb._maxcv_filter
-    if not (len(Fn) == len(Mn) == len(pb._x_filter) and len(Fn) >= 1):
+    if "align" in ob and not (len(Fn) == len(Mn) == len(pb._x_filter) and len(Fn) >= 1):
         problems.append("filter lists not aligned / empty")
-    if len(Fn) > fs:
+    if "bound" in ob and len(Fn) > fs:
         problems.append("filter longer than filter_size")
-    if fs > len(H1) or not isinstance(inp.get("H"), list):
+    if "cover" in ob:
         for (fp, mp) in H1:
             if fp == fp and mp == mp:
                 if not any(fq == fq and mq == mq and fq <= fp and mq <= mp for fq, mq in zip(Fn, Mn)):
                     problems.append(f"fully defined evaluated point (f={fp}, maxcv={mp}) is not covered by the filter {list(zip(Fn, Mn))}")
                     break
-    if pb._store_history:
+    if "history" in ob and pb._store_history:
         k = min(len(H1), pb._history_size)
         exp = H1[-k:]
         got = list(zip(pb._fun_history, pb._maxcv_history))
